@@ -26,11 +26,19 @@ kf    : a judged failure carries a known-finding tag ONLY IF the start was prist
         table's (C08-alias-default) or a table built by add / compromise / json (C08-receiver-mutated).
         Anything else — unclean start, a failure on a Linear history, a non-Linear history on which the code
         also disagrees with the heap model, a malformed reply — is an ordinary FAIL.
-nan   : a `compromise` one of whose operands has an amino acid of total weight 0 yields int(NaN) weights, which Go
-        leaves to the platform.  TAINT is tracked per handle (value run) and per cell (heap run): the result of such
-        a compromise is tainted; add / compromise / json / observe of a tainted table is tainted; a re-weighting
-        overwrites every weight (clean); a requested default table is clean unless its cell is tainted.  Only
-        observations tainted in either run are compared up to the code; every other step is compared exactly.
+taint : the property constrains re-weighting results, their independence from other re-weightings and the pristine
+        NCBI default tables; what add / compromise return is constrained (C18) for well-formed tables over the SAME
+        code only.  TAINT is tracked per handle (value run) and per cell (heap run), a step is tainted when it is in
+        either run:
+          level 2 (outside the property, class suffix /ood): the table requested for an id that is not one of the
+            regenerated NCBI ids; the result of add / compromise whose operands are not `Compatible` non-empty
+            tables (different codes, the empty table of an observe / error slot, duplicate entries); everything
+            computed from a level-2 table, INCLUDING its re-weighting (its code is not known).  Level-2 observations
+            are not compared at all; a difference from the heap model is reported as `/ood-drift` only.
+          level 1 (class suffix /nan): a `compromise` one of whose operands has an amino acid of total weight 0
+            yields int(NaN) weights, which Go leaves to the platform; add / compromise / json / observe of such a
+            table.  Compared up to the code of the table.  A re-weighting overwrites every weight: clean again.
+        Every untainted step of the same history is compared exactly.
 Non-ASCII letters are ordinary judged input (framing by letters, /repo 053f18d); class suffix /non-ascii.
 What is assumed of strings.ToUpper outside ASCII is stated in Model/CodonTables.lean and gen/c08.py.
 -/
@@ -91,74 +99,79 @@ def asciiStr (s : Str) : Bool := s.all fun c => c.val ≤ 127
 
 def hasNaN (t1 t2 : Table) : Bool := !(ValueTables.posTotals t1 && ValueTables.posTotals t2)
 
+/-- operands of add / compromise inside what C18 constrains: non-empty, well-formed, same code as maps -/
+def inDomPair (t1 t2 : Table) : Bool := !t1.aminoAcids.isEmpty && !t2.aminoAcids.isEmpty && ValueTables.Compatible t1 t2
+
+def ncbiId (id : Nat) : Bool := ValueTables.ncbiIds.contains id
+
 def valStart : ValueTables.VState := { handles := [], trace := [] }
 
-/-- taint of every step's observation in the VALUE run (per handle) -/
-def valTaints (defs : List (Nat × Table)) (hist : List (Op Float)) : List Bool :=
-  let rec go (st : ValueTables.VState) (th : List Bool) : List (Op Float) → List Bool
+/-- taint level of every step's observation in the VALUE run (per handle) -/
+def valTaints (defs : List (Nat × Table)) (hist : List (Op Float)) : List Nat :=
+  let rec go (st : ValueTables.VState) (th : List Nat) : List (Op Float) → List Nat
     | [] => []
     | op :: rest =>
-      let t := fun (h : Nat) => (th[h]?).getD false
+      let t := fun (h : Nat) => (th[h]?).getD 0
+      let pairLvl := fun (h1 h2 : Nat) (nan : Bool) => match st.handles[h1]?, st.handles[h2]? with
+        | some t1, some t2 => if !inDomPair t1 t2 then 2 else if nan && hasNaN t1 t2 then 1 else 0
+        | _, _ => 0
       -- (taint of the new handle, taint of what the step shows)
-      let r : Bool × Bool := match op with
-        | .get _ => (false, false)
-        | .reweight _ _ => (false, false)
-        | .add h1 h2 => (t h1 || t h2, t h1 || t h2)
-        | .compromise h1 h2 _ =>
-          let x := t h1 || t h2 || (match st.handles[h1]?, st.handles[h2]? with
-            | some t1, some t2 => hasNaN t1 t2
-            | _, _ => false)
-          (x, x)
+      let r : Nat × Nat := match op with
+        | .get id => if ncbiId id then (0, 0) else (2, 2)
+        | .reweight h _ => if t h == 2 then (2, 2) else (0, 0)
+        | .add h1 h2 => let x := max (max (t h1) (t h2)) (pairLvl h1 h2 false); (x, x)
+        | .compromise h1 h2 _ => let x := max (max (t h1) (t h2)) (pairLvl h1 h2 true); (x, x)
         | .json h => (t h, t h)
-        | .observe h => (false, t h)
+        | .observe h => (0, t h)
       r.2 :: go (ValueTables.vstep addTable cmpFloat defs st op) (th ++ [r.1]) rest
   go valStart [] hist
 
-/-- taint of every step's observation in the HEAP run (per cell: a re-weighting cleans the cell for all its handles) -/
-def heapTaints (defs : List (Nat × Table)) (hist : List (Op Float)) : List Bool :=
-  let rec go (st : HState) (tc : List Bool) : List (Op Float) → List Bool
+/-- taint level of every step's observation in the HEAP run (per cell: a re-weighting cleans a level-1 cell for all its handles) -/
+def heapTaints (defs : List (Nat × Table)) (hist : List (Op Float)) : List Nat :=
+  let rec go (st : HState) (tc : List Nat) : List (Op Float) → List Nat
     | [] => []
     | op :: rest =>
       let addr := fun (h : Nat) => (st.handles[h]?).map (·.aas)
       let t := fun (h : Nat) => match addr h with
-        | some a => (tc[a]?).getD false
-        | none => false
+        | some a => (tc[a]?).getD 0
+        | none => 0
+      let pairLvl := fun (h1 h2 : Nat) (nan : Bool) =>
+        match (st.handles[h1]?).bind (deref st.heap), (st.handles[h2]?).bind (deref st.heap) with
+        | some t1, some t2 => if !inDomPair t1 t2 then 2 else if nan && hasNaN t1 t2 then 1 else 0
+        | _, _ => 0
       let st' := hstep cmpFloat st op
       let grew := st'.heap.length > st.heap.length
       -- (cells after the step, taint of what the step shows)
-      let r : List Bool × Bool := match op with
-        | .get _ =>
-          if grew then (tc ++ [false], false)
+      let r : List Nat × Nat := match op with
+        | .get id =>
+          if grew then (let x := if ncbiId id then 0 else 2; (tc ++ [x], x))
           else (tc, match (st'.handles.getLast?).map (·.aas) with
-            | some a => (tc[a]?).getD false
-            | none => false)
+            | some a => (tc[a]?).getD 0
+            | none => 0)
         | .reweight h _ =>
-          if grew then (tc ++ [false], false)
+          if grew then (tc ++ [0], 0)
           else (match addr h with
-            | some a => tc.set a false
-            | none => tc, false)
-        | .add h1 h2 => let x := t h1 || t h2; (tc ++ [x], x)
-        | .compromise h1 h2 _ =>
-          let x := t h1 || t h2 || (match (st.handles[h1]?).bind (deref st.heap), (st.handles[h2]?).bind (deref st.heap) with
-            | some t1, some t2 => hasNaN t1 t2
-            | _, _ => false)
-          (tc ++ [x], x)
+            | some a => if (tc[a]?).getD 0 == 2 then (tc, 2) else (tc.set a 0, 0)
+            | none => (tc, 0))
+        | .add h1 h2 => let x := max (max (t h1) (t h2)) (pairLvl h1 h2 false); (tc ++ [x], x)
+        | .compromise h1 h2 _ => let x := max (max (t h1) (t h2)) (pairLvl h1 h2 true); (tc ++ [x], x)
         | .json h => (tc ++ [t h], t h)
-        | .observe h => (tc ++ [false], t h)
+        | .observe h => (tc ++ [0], t h)
       r.2 :: go st' r.1 rest
-  go (HState.init defs) (defs.map fun _ => false) hist
+  go (HState.init defs) (defs.map fun p => if ncbiId p.1 then 0 else 2) hist
 
-def obsEq (relaxed : Bool) (x y : Obs) : Bool :=
-  if !relaxed then x == y
-  else match x, y with
+def obsEq (level : Nat) (x y : Obs) : Bool :=
+  if level == 0 then x == y
+  else if level == 1 then match x, y with
     | .table a, .table b => ValueTables.codeOf a == ValueTables.codeOf b
     | a, b => a == b
+  else true
 
-/-- traces equal; a step whose observation is tainted is compared up to the code of the table -/
-def eqTrace (taint : List Bool) (a b : List Obs) : Bool :=
+/-- traces equal up to the taint level of every step -/
+def eqTrace (taint : List Nat) (a b : List Obs) : Bool :=
   a.length == b.length && ((a.zip b).zip taint).all fun p => obsEq p.2 p.1.1 p.1.2
 
-def firstDiff (taint : List Bool) (a b : List Obs) : Nat :=
+def firstDiff (taint : List Nat) (a b : List Obs) : Nat :=
   (((a.zip b).zip taint).takeWhile fun p => obsEq p.2 p.1.1 p.1.2).length
 
 /-- the known finding that explains a failure at step `d` of `hist`: the cell that step reads in the heap model -/
@@ -191,14 +204,15 @@ def judgeHist (ids : String) (toks : List String) (out : List String) : Verdict 
       -- (a) pristine start, judged on what poly built (the harness only snapshots / restores)
       let cleanStart := shapeOk && reported.all fun p => isPristine p.1 p.2
       -- steps whose observation carries int(NaN) weights in either semantics
-      let relax := ((valTaints reported hist).zip (heapTaints reported hist)).map fun p => p.1 || p.2
+      let relax := ((valTaints reported hist).zip (heapTaints reported hist)).map fun p => max p.1 p.2
       -- correspondence: heap model from the reported state
       let heapTrace := runHeap cmpFloat reported hist
       let corr := shapeOk && eqTrace relax impl heapTrace
       -- (b) value semantics from the same tables
       let valTrace := ValueTables.runValue addTable cmpFloat reported hist
       let valOk := shapeOk && eqTrace relax impl valTrace
-      let badReply := impl.any fun o => o == Obs.fault
+      let badReply := ((impl.zip relax).any fun p => p.1 == Obs.fault && p.2 != 2)
+      let oodDrift := shapeOk && !eqTrace (relax.map fun l => if l == 2 then 0 else l) impl heapTrace && corr
       let pass := cleanStart && valOk
       let lin := ValueTables.Linear reported hist
       let ascii := hist.all fun o => match o with | .reweight _ s => asciiStr s | _ => true
@@ -209,7 +223,8 @@ def judgeHist (ids : String) (toks : List String) (out : List String) : Verdict 
         ++ (if known then "/kf:" ++ kfId reported hist (firstDiff relax impl valTrace) else "")
         ++ (if badReply then "/bad-reply" else "")
         ++ (if !cleanStart then "/start-not-pristine" else "")
-        ++ (if relax.any id then "/nan" else "")
+        ++ (if relax.any (· == 1) then "/nan" else "") ++ (if relax.any (· == 2) then "/ood" else "")
+        ++ (if oodDrift then "/ood-drift" else "")
         ++ "/len" ++ toString hist.length
         ++ (if hist.any fun o => match o with | .reweight _ s => s.length % 3 != 0 | _ => false then "/frame" else "")
       let d := if corr && pass then "" else
